@@ -247,8 +247,15 @@ def gen_program(r: Rng, size=30, sp=None, allow_undefined=False, stdout_writes=T
         for ad in sorted(reads):
             body.op("LDAC", r.choice([0, 0, 1, 7, ad])); body.op("STAM", ad)
     body.b += main
-    # exit
-    body.op("LDAC", r.choice([0, 1, 42, 255, 256, -1, r.word()])); body.op("LDBM", 1); body.op("STAI", 2)
+    # exit: with a constant, or with a checksum of the registers and of the scratch words the program used (so that a wrong
+    # load, store or address anywhere in the run reaches the exit value)
+    if r.chance(1, 3):
+        body.op("LDAC", r.choice([0, 1, 42, 255, 256, -1, r.word()]))
+    else:
+        body.opr(1)
+        for ad in sorted(reads)[:8]:
+            body.op("LDBM", ad); body.opr(1)
+    body.op("LDBM", 1); body.op("STAI", 2)
     body.op("LDAC", 0); body.opr(3)
     code = [0x97, 0, 0, 0] + list(sp.to_bytes(4, "little")) + body.b
     while len(code) % 4:
